@@ -31,6 +31,32 @@ def renderPacket (pk : Packet) : String :=
   s!"wq={c.willQos} wf={boolStr c.willFlag} wr={boolStr c.willRetain} cl={boolStr c.clean} " ++
   "wprops=(" ++ renderProps c.willProperties ++ ")) props=(" ++ renderProps pk.properties ++ ")"
 
+/-- C26's equivalence: an omitted optional property equals its specified default; values the encoder
+    never writes (zero subscription identifiers, response topics with wildcards, topic alias 0,
+    maximum QoS ≥ 2, the CONNECT reserved bit) are identified with "absent". -/
+def normProps (p : Props) : Props :=
+  { p with
+    payloadFormat := if p.payloadFormatFlag then p.payloadFormat else 0, payloadFormatFlag := false,
+    sessionExpiryInterval := if p.sessionExpiryIntervalFlag then p.sessionExpiryInterval else 0, sessionExpiryIntervalFlag := false,
+    requestProblemInfo := if p.requestProblemInfoFlag then p.requestProblemInfo else 1, requestProblemInfoFlag := false,
+    topicAlias := if p.topicAliasFlag && p.topicAlias > 0 then p.topicAlias else 0, topicAliasFlag := false,
+    maximumQos := if p.maximumQosFlag && p.maximumQos < 2 then p.maximumQos else 2, maximumQosFlag := false,
+    retainAvailable := if p.retainAvailableFlag then p.retainAvailable else 1, retainAvailableFlag := false,
+    wildcardSubAvailable := if p.wildcardSubAvailableFlag then p.wildcardSubAvailable else 1, wildcardSubAvailableFlag := false,
+    subIDAvailable := if p.subIDAvailableFlag then p.subIDAvailable else 1, subIDAvailableFlag := false,
+    sharedSubAvailable := if p.sharedSubAvailableFlag then p.sharedSubAvailable else 1, sharedSubAvailableFlag := false,
+    subscriptionIdentifier := p.subscriptionIdentifier.filter (· > 0),
+    responseTopic := if containsAny p.responseTopic [43, 35] then [] else p.responseTopic }
+
+def normPacket (pk : Packet) : Packet :=
+  { pk with reservedBit := 0, properties := normProps pk.properties,
+            connect := { pk.connect with willProperties := normProps pk.connect.willProperties } }
+
+def renderDecN : Dec Packet → String
+  | .ok pk => "ok " ++ renderPacket (normPacket pk)
+  | .error .panic => "panic"
+  | .error (.code n) => "err " ++ n
+
 def renderDec : Dec Packet → String
   | .ok pk => "ok " ++ renderPacket pk
   | .error .panic => "panic"
@@ -69,14 +95,18 @@ def codecOp (impl : String) : List String → Option (String × String × String
           match bytes with
           | hb2 :: rest =>
             match Mochi.Varint.decodeLength rest with
-            | .ok (n, bu) => s!"E={toHex bytes} D={renderDec (decodeWire pk.protocolVersion hb2 n (rest.drop bu))} L={boolStr (n == (rest.drop bu).length)}"
+            | .ok (n, bu) =>
+              let d2 := decodeWire pk.protocolVersion hb2 n (rest.drop bu)
+              s!"E={toHex bytes} L={boolStr (n == (rest.drop bu).length)} Q={boolStr (renderDecN d2 == renderDecN r)} D={renderDec d2}"
             | .error _ => s!"E={toHex bytes} D=badlen"
           | [] => "E=- D=empty"
         | .error (.code n) => "encerr " ++ n
       | .error .panic => "panic"
       | .error (.code n) => "err " ++ n
-    some (out, verdict (!impl.startsWith "panic" && (rem != body.length || !(impl.splitOn " L=0").length > 1))
-      "spec wants no panic and a remaining length equal to the bytes that follow", "-")
+    let full := mods.maxSize == 0 && !mods.disallowProblemInfo && mods.allowResponseInfo
+    some (out, verdict (!impl.startsWith "panic" && (rem != body.length || !(impl.splitOn " L=0").length > 1) &&
+                        (!full || rem != body.length || !(impl.splitOn " Q=0").length > 1))
+      "spec wants no panic, a remaining length equal to the bytes that follow and (with nothing suppressed) a re-encoding that decodes to an equivalent packet", "-")
   | ["c.ref", ver, hb, rem, h, wantHex] => do
     -- `wantHex` = hex of the rendering of the packet the sender meant (built by the reference generator)
     let r := decodeWire (← ver.toNat?) (← hb.toNat?) (← rem.toNat?) (← parseHex h)
